@@ -2,10 +2,12 @@
 
    The file system below cache_dir is a finite map  path -> node  (a path is the list of components below
    cache_dir; directories are implicit: ensure_directory creates them and nothing in this back-end removes them).
-   Nodes: a regular file with its content, or a symbolic link with its target.  A hard link is a second
-   directory entry for the same inode; FileCache never modifies an inode in place (every write goes through
-   write_atomic = write a temporary file, rename it over the name), so a hard link is observationally a copy
-   of the content at link time and is modelled as such.
+   Nodes: a regular file with its inode number and content, or a symbolic link with its target.  A hard link
+   is a second directory entry with the same inode number; FileCache never modifies an inode in place (every
+   write goes through write_atomic = write a temporary file with a new inode, rename it over the name), so the
+   content can be kept in the directory entry.  The inode number is what os.path.samefile compares.
+   Temporary names (location + '.tmp-<random>') are created and renamed within one operation; the model takes
+   them to be unused names and shows the net effect (name collisions and crashes in between: C06).
 
    Followed line by line: FileCache.is_cached / load_tile / remove_tile / store_tile / _store /
    _store_single_color_tile / _single_color_tile_location, TileCacheBase.load_tiles / store_tiles.
@@ -19,7 +21,7 @@ Local Open Scope Z_scope.
 Inductive link_mode := LNone | LSym | LHard.
 
 Inductive node :=
-| NFile (b : bytes)
+| NFile (ino : nat) (b : bytes)
 | NSym (target : path).
 
 Definition fs := list (path * node).
@@ -36,22 +38,40 @@ Fixpoint fs_del (s : fs) (p : path) : fs :=
   | (q, n) :: r => if path_eqb q p then fs_del r p else (q, n) :: fs_del r p
   end.
 
-(* rename(tmp, p) / symlink / link on a free name *)
+(* rename(tmp, p): replaces whatever p names *)
 Definition fs_put (s : fs) (p : path) (n : node) : fs := (p, n) :: fs_del s p.
 
-(* content reached from p following symbolic links (Linux gives up after 40: ELOOP) *)
-Fixpoint fs_resolve (fuel : nat) (s : fs) (p : path) : option bytes :=
+(* an inode number no existing file has *)
+Fixpoint fs_max_ino (s : fs) : nat :=
+  match s with
+  | [] => O
+  | (_, NFile i _) :: r => Nat.max i (fs_max_ino r)
+  | (_, NSym _) :: r => fs_max_ino r
+  end.
+Definition fs_fresh (s : fs) : nat := S (fs_max_ino s).
+
+(* inode and content reached from p following symbolic links (Linux gives up after 40: ELOOP) *)
+Fixpoint fs_resolve (fuel : nat) (s : fs) (p : path) : option (nat * bytes) :=
   match fs_get s p with
-  | Some (NFile b) => Some b
+  | Some (NFile i b) => Some (i, b)
   | Some (NSym t) => match fuel with O => None | S f => fs_resolve f s t end
   | None => None
   end.
-Definition fs_read (s : fs) (p : path) : option bytes := fs_resolve 40 s p.
+Definition fs_stat (s : fs) (p : path) : option (nat * bytes) := fs_resolve 40 s p.
+Definition fs_read (s : fs) (p : path) : option bytes :=
+  match fs_stat s p with Some (_, b) => Some b | None => None end.
 
 (* os.path.exists follows links; os.path.islink does not *)
-Definition fs_exists (s : fs) (p : path) : bool := is_some (fs_read s p).
+Definition fs_exists (s : fs) (p : path) : bool := is_some (fs_stat s p).
 Definition fs_islink (s : fs) (p : path) : bool :=
   match fs_get s p with Some (NSym _) => true | _ => false end.
+(* os.path.samefile(p, q): same inode after following links (raises when one is missing: false here, the
+   callers test exists first) *)
+Definition fs_samefile (s : fs) (p q : path) : bool :=
+  match fs_stat s p, fs_stat s q with
+  | Some (i, _), Some (j, _) => Nat.eqb i j
+  | _, _ => false
+  end.
 
 (* ------------------------------------------------------------------ single colour tiles *)
 (* payloads are the pixel values of the tile (one number 65536 r + 256 g + b per pixel);
@@ -80,27 +100,28 @@ Section FileCache.
   (* _store: if os.path.islink(location): os.unlink(location); write_atomic(location, data) *)
   Definition fstore_plain (s : fs) (loc : path) (b : bytes) : fs :=
     let s1 := if fs_islink s loc then fs_del s loc else s in
-    fs_put s1 loc (NFile b).
+    fs_put s1 loc (NFile (fs_fresh s1) b).
 
-  (* _store_single_color_tile *)
+  (* _store_single_color_tile (repaired code, commit 78090d4):
+       if not os.path.exists(real): self._store(tile, real)
+       if os.path.exists(tile_loc) and os.path.samefile(real, tile_loc): return
+       os.link(real, tmp) / os.symlink(relpath(real), tmp); os.rename(tmp, tile_loc) *)
   Definition fstore_mono (s : fs) (loc : path) (b : bytes) (c : Z) : fs :=
     let real := sc_path ext c in
     let s1 := if fs_exists s real then s else fstore_plain s real b in
-    let s2 := if fs_exists s1 loc || fs_islink s1 loc then fs_del s1 loc else s1 in
-    match link with
-    | LHard =>
-      (* os.link(real, loc); EEXIST is ignored *)
-      match fs_get s2 loc, fs_get s2 real with
-      | None, Some n => fs_put s2 loc n
-      | _, _ => s2
-      end
-    | _ =>
-      (* os.symlink(relpath(real, dirname(loc)), loc); EEXIST is ignored.  The relative target resolves to real. *)
-      match fs_get s2 loc with
-      | None => fs_put s2 loc (NSym real)
-      | Some _ => s2
-      end
-    end.
+    if fs_exists s1 loc && fs_samefile s1 real loc then s1
+    else
+      match link with
+      | LHard =>
+        (* os.link(real, tmp): a second name for the inode of real (ENOENT cannot happen: real exists) *)
+        match fs_get s1 real with
+        | Some n => fs_put s1 loc n
+        | None => s1
+        end
+      | _ =>
+        (* the relative target resolves to real *)
+        fs_put s1 loc (NSym real)
+      end.
 
   (* store_tile (tile.stored is False) *)
   Definition fstore (s : fs) (a : addr) (b : bytes) : fs :=
